@@ -94,6 +94,17 @@ def gen_case(ctx: Ctx, k: int) -> dict[str, Any]:
     mapping = None
     if custom:
         mapping = {f: r.choice([f + "_x", f.upper(), "f" + str(i)]) for i, f in enumerate(FIELDS)}
+        if r.random() < 0.4:
+            # user names that are default names of *other* fields: a rotation of the default names over 2-4 fields
+            # (still pairwise distinct, so save/load must invert each other: save_load); the rest stay fresh
+            sub = r.sample(FIELDS, r.choice([2, 3, 4]))
+            rot = sub[1:] + sub[:1] if r.random() < 0.5 else sub[-1:] + sub[:-1]
+            for f, g in zip(sub, rot):
+                mapping[f] = g
+            if r.random() < 0.5:
+                # a chain instead of a cycle: the last one gets a fresh name
+                mapping[sub[-1]] = sub[-1] + "_y"
+            ctx.tick("mapping_reuses_default_names")
     ctx.tick("mapping_custom" if custom else "mapping_default")
     ctx.tick("async" if async_flag else "sync")
     ctx.tick("kind_reorder" if reorder else "kind_alternatives")
@@ -195,7 +206,7 @@ def run(ctx: Ctx) -> None:
             mp = c["mapping"] or {f: f for f in FIELDS}
             mem: dict[str, list[list[dict[str, Any]]]] = {}
             for name, job in c["mem"]["jobs"]:
-                mem.setdefault(name, []).append(sorted(job, key=lambda e: e["eventId"]))
+                mem.setdefault(name, []).append(sorted(job, key=lambda e: str(e.get("eventId"))))
             files: dict[str, list[list[dict[str, Any]]]] = {}
             raw_objs: list[dict[str, Any]] = []
             for n in c["names"]:
@@ -205,8 +216,8 @@ def run(ctx: Ctx) -> None:
                         objs = json.load(f)
                     raw_objs += objs
                     files.setdefault(n, []).append(sorted(({k: o.get(mp[k], [] if k == "previousEventIds" else None)
-                                                            for k in FIELDS} for o in objs), key=lambda e: e["eventId"]))
-            key = lambda j: j[0]["jobId"] if j else ""  # noqa: E731
+                                                            for k in FIELDS} for o in objs), key=lambda e: str(e.get("eventId"))))
+            key = lambda j: str(j[0].get("jobId")) if j else ""  # noqa: E731
             if {n: sorted(v, key=key) for n, v in mem.items()} != {n: sorted(v, key=key) for n, v in files.items()}:
                 c["bad"] = "the saved PV files do not hold the events, links and field values of the in-memory stream"
                 continue
@@ -214,7 +225,7 @@ def run(ctx: Ctx) -> None:
             if "error" in rb:
                 c["bad"] = f"the saved PV files cannot be read back by pv_job_file_to_event_sequence: {rb['error'][:200]}"
                 continue
-            rbj = sorted((sorted(({k: e.get(k, []) for k in FIELDS} for e in j), key=lambda e: e["eventId"])
+            rbj = sorted((sorted(({k: e.get(k, []) for k in FIELDS} for e in j), key=lambda e: str(e.get("eventId")))
                           for j in rb["jobs"]), key=key)
             memj = sorted((j for js in mem.values() for j in js), key=key)
             if rbj != [[{k: e.get(k, []) for k in FIELDS} for e in j] for j in memj]:
